@@ -118,6 +118,7 @@ class Module(object):
         self.functions = {}
         self.assigns = {}    # module-level name -> ast expr (last assignment)
         self.assign_lines = {}
+        self.updates = {}    # id(initialiser expr) -> [argument of NAME.update(...) at module level]
         self.is_pkg = path.endswith('__init__.py')
         self._scan()
 
@@ -151,6 +152,11 @@ class Module(object):
                 if isinstance(t, ast.Name):
                     self.assigns[t.id] = st.value
                     self.assign_lines[t.id] = st.lineno
+        elif isinstance(st, ast.Expr) and isinstance(st.value, ast.Call) and isinstance(st.value.func, ast.Attribute) \
+                and isinstance(st.value.func.value, ast.Name) and st.value.func.attr == 'update' \
+                and st.value.func.value.id in self.assigns and len(st.value.args) == 1 and not st.value.keywords:
+            # TABLE.update(<pairs or dict>) at module level, after TABLE = {...}: part of the table's definition
+            self.updates.setdefault(id(self.assigns[st.value.func.value.id]), []).append(st.value.args[0])
         elif isinstance(st, (ast.If, ast.Try)):
             for sub in ast.iter_child_nodes(st):
                 if isinstance(sub, ast.stmt):
@@ -591,7 +597,19 @@ class Program(object):
         if isinstance(r, tuple) and r[0] == 'assign':
             key = ('m', r[1].name, id(r[2]))
             if key not in self._fold_cache:
-                self._fold_cache[key] = self.fold(r[2], r[1], None, None, _depth + 1)
+                v = self.fold(r[2], r[1], None, None, _depth + 1)
+                ups = r[1].updates.get(id(r[2]))
+                if ups and isinstance(v, dict):
+                    v = dict(v)
+                    for u in ups:
+                        uv = self.fold(u, r[1], None, None, _depth + 1)
+                        try:
+                            v.update(uv)
+                        except Exception as e:
+                            raise NotConst('update: %s' % e)
+                elif ups:
+                    raise NotConst('update of a non-dict')
+                self._fold_cache[key] = v
             return self._fold_cache[key]
         if isinstance(r, tuple) and r[0] == 'classattr':
             key = ('c', r[1].qualname, id(r[2]))
